@@ -139,19 +139,20 @@ Section Analysis.
     | BrCons _ b bs' => aexec_branches bs' T (ajoin acc (aexec_block b T))
     end.
 
-  Definition aenv_eqb (A B : tenv) : bool :=
-    Nat.eqb (List.length A) (List.length B) &&
+  (* T' = ajoin T (F T) is always above T (fewer variables, more values); the iteration is stable
+     when nothing was lost or added: every entry of T is still present in T' with no new value *)
+  Definition stable (T T' : tenv) : bool :=
     forallb (fun xa : var * list Qc =>
-               match tlookup B (fst xa) with
-               | Some vb => subset vb (snd xa) && subset (snd xa) vb
+               match tlookup T' (fst xa) with
+               | Some v' => subset v' (snd xa)
                | None => false
-               end) A.
+               end) T.
 
   Fixpoint afix (fuel : nat) (body : block) (T : tenv) : option tenv :=
     match fuel with
     | O => None
     | S f => let T' := ajoin T (aexec_block body T) in
-             if aenv_eqb T' T then Some T else afix f body T'
+             if stable T T' then Some T else afix f body T'
     end.
 
   (* ---- R1: conditions at their program points ---- *)
